@@ -33,19 +33,19 @@ def pair (a b : Nat) : String := s!"{a},{b}"
 def globConv (s : List Char) : String :=
   let t := match Glob.globToIptuple s with
     | .ok (lo, hi) => pair lo hi
-    | .error _ => "!"
+    | .error e => showErr e
   let r := match Glob.globToIprange s with
     | .ok r => pair r.lo r.hi
-    | .error _ => "!"
+    | .error e => showErr e
   let g := match Glob.ipGlob s with
     | .ok g => s!"{g.lo},{g.hi},{showStr g.glob}"
-    | .error _ => "!"
+    | .error e => showErr e
   let c := match Glob.globToCidrs s with
     | .ok l => showList (l.map (fun b => s!"4:{b.val}/{b.plen}"))
-    | .error _ => "!"
+    | .error e => showErr e
   let st := match Glob.setGlob s with
     | .ok g => s!"{g.lo},{g.hi},{showStr g.glob}"
-    | .error _ => "!"
+    | .error e => showErr e
   " ".intercalate [t, r, g, c, st]
 
 def handle (op : String) (args : List String) : Option String :=
@@ -60,12 +60,12 @@ def handle (op : String) (args : List String) : Option String :=
     let a ← parseAddr a; let b ← parseAddr b
     match Glob.iprangeToGlobs a b with
     | .ok l => pure (showStrs l)
-    | .error _ => pure "!"
+    | .error e => pure (showErr e)
   | "cidr2glob", [n] => do
     let n ← parseNet n
     match Glob.cidrToGlob n with
     | .ok g => pure (showStr g)
-    | .error _ => pure "!"
+    | .error e => pure (showErr e)
   | "nmap", [fuel, s] => do
     let fuel ← fuel.toNat?
     let s ← parseStr s
